@@ -103,7 +103,7 @@ fn ancestor_algebra<const U: usize>() {
 
     let all_common = a.all_common_ancestor_ids(&b);
     assert!(is_sorted_set(&all_common));
-    assert!(all_common.contains(&pid) == ((in_a || p == ida) && (in_b || p == idb)), "all_common = (A ∪ {a}) ∩ (B ∪ {b})");
+    assert!(all_common.contains(&pid) == ((in_a || p == ida) && (in_b || p == idb)), "all_common = (A + a) ∩ (B + b)");
 
     let union = a.union_ancestor_ids(&b);
     assert!(is_sorted_set(&union));
@@ -117,7 +117,7 @@ fn ancestor_algebra<const U: usize>() {
     if in_a || in_b {
         assert!(got, "all_union contains A ∪ B");
     } else if p != ida && p != idb {
-        assert!(!got, "all_union contains nothing outside A ∪ B ∪ {a,b}");
+        assert!(!got, "all_union contains nothing outside A ∪ B ∪ (a,b)");
     }
     let self_incl = all_union.contains(&HpoTermId::from_u32(ida)) && all_union.contains(&HpoTermId::from_u32(idb));
     let self_excl = all_union.contains(&HpoTermId::from_u32(ida)) == (in_mask(&u, mb, ida))
